@@ -19,52 +19,6 @@ Proof.
   rewrite (list_eqb_spec ev_eqb ev_eqb_spec), rk_eqb_spec. split; [intros [-> ->]; reflexivity | intros H; injection H; auto].
 Qed.
 
-(* with handlers inserted only for Exception-derived classes, a handler claims exactly the
-   exceptions that derive from Exception *)
-Lemma claims_iff p e :
-  forallb (fun co => subclass (fst co) CException) (p_handlers p) = true ->
-  claims (handlers p) e = isinstance e CException.
-Proof.
-  intros W. rewrite claims_handlers. unfold claimed, user_claim.
-  destruct (find _ (p_handlers p)) as [co|] eqn:F; [|reflexivity].
-  apply find_some in F. destruct F as [Hin Hi]. rewrite forallb_forall in W. symmetry.
-  eapply subclass_trans; [exact Hi | exact (W co Hin)].
-Qed.
-
-(* ---------- the delivered events ---------- *)
-Lemma events_of_calls f t : events_of f t = events_of f (calls t).
-Proof.
-  induction t as [|e r IH]; simpl; [reflexivity|]. destruct e; simpl; rewrite ?IH; reflexivity.
-Qed.
-
-(* ---------- the theorems ---------- *)
-Theorem model_meets_spec i : wf i = true -> spec_okb i (model i) = true.
-Proof.
-  intros W. unfold wf in W. apply andb_true_iff in W as [_ Wh].
-  unfold model, spec_okb. destruct (run_bracket (i_prog i) []) as (s & o & d & R & V & C & _ & _).
-  rewrite R. cbn [o_events o_raised]. rewrite events_of_calls, C.
-  assert (B : bracket (i_flavour i) (events_of (i_flavour i) [TStart; TOut o d; TStop])
-              = Some (deliver (i_flavour i) o)).
-  { unfold events_of, bracket. simpl. destruct (has_stop (i_flavour i)); reflexivity. }
-  rewrite B.
-  assert (Eq : forall e, negb (claims (handlers (i_prog i)) e) = negb (derives_from_Exception e)).
-  { intros e. unfold derives_from_Exception. now rewrite (claims_iff _ e Wh). }
-  rewrite <- (find_ext' _ _ (raised (i_prog i)) Eq). clear Eq.
-  unfold verdict in *. destruct (skipped (i_prog i)) eqn:Sk.
-  - (* skip-decorated: nothing is raised *)
-    assert (raised (i_prog i) = []) as ->.
-    { unfold raised, forced_failure, raised_by_user. rewrite Sk. reflexivity. }
-    reflexivity.
-  - rewrite <- collected_run_raised. unfold collected_run. rewrite Sk.
-    destruct (find _ (collected (i_prog i) false)) as [e|] eqn:F.
-    + rewrite (decide_unclaimed _ _ _ F) in *. cbn [fst snd] in *. rewrite table_last_resort in V.
-      injection V as <-. rewrite (proj2 (outcome_eqb_spec _ _) eq_refl), (proj2 (rk_eqb_spec _ _) eq_refl). reflexivity.
-    + destruct (collected (i_prog i) false) as [|x r] eqn:EX.
-      * reflexivity.
-      * destruct (decide_claimed (handlers (i_prog i)) (x :: r)) as (h & _ & D); [discriminate | exact F|].
-        rewrite D. reflexivity.
-Qed.
-
 Lemma bracket_some f evs out :
   bracket f evs = Some out -> evs = if has_stop f then [Start; Out out; Stop] else [Start; Out out].
 Proof.
@@ -83,33 +37,124 @@ Proof.
   - apply rk_eqb_spec in H. split; [intros _; exact H | intros e' He'; discriminate].
 Qed.
 
+(* ------------------------------------------------------------------ *)
+(* the model meets the statement                                        *)
+(* ------------------------------------------------------------------ *)
+From TT Require Import Proof.RunExtra Proof.RunTable Proof.RunVerdict.
+
+Definition handlers_within_Exception (p : prog) : bool :=
+  forallb (fun co => subclass (fst co) CException) (user_handlers p).
+
+(* with handlers inserted only for Exception-derived classes, somebody is responsible for
+   exactly the exceptions that derive from Exception *)
+Lemma claimed_iff p e : handlers_within_Exception p = true -> claimed p e = isinstance e CException.
+Proof.
+  intros W. unfold claimed, user_claim.
+  destruct (find _ (user_handlers p)) as [co|] eqn:F; [|reflexivity].
+  apply find_some in F. destruct F as [Hin Hi]. unfold handlers_within_Exception in W.
+  rewrite forallb_forall in W. symmetry. eapply subclass_trans; [exact Hi | exact (W co Hin)].
+Qed.
+
+Lemma find_unclaimed p :
+  handlers_within_Exception p = true ->
+  find (fun e => negb (uclaimed (user_handlers p) e)) (raised p)
+  = find (fun e => negb (derives_from_Exception e)) (raised p).
+Proof.
+  intros W. apply find_ext'. intros e. unfold derives_from_Exception.
+  change (uclaimed (user_handlers p) e) with (claimed p e). now rewrite (claimed_iff _ _ W).
+Qed.
+
+(* what is reported and what propagates, when all inserted handlers are for Exception-derived classes *)
+Lemma verdict_base p e :
+  handlers_within_Exception p = true ->
+  find (fun e => negb (derives_from_Exception e)) (raised p) = Some e ->
+  verdict_of p = (OErr, Some e).
+Proof.
+  intros W F. unfold verdict_of. destruct (skipped p) eqn:S; [rewrite (raised_skipped _ S) in F; discriminate|].
+  unfold decide_u. rewrite (find_unclaimed _ W), F. destruct (raised p); [discriminate | reflexivity].
+Qed.
+Lemma verdict_no_base p :
+  handlers_within_Exception p = true ->
+  find (fun e => negb (derives_from_Exception e)) (raised p) = None ->
+  snd (verdict_of p) = None.
+Proof.
+  intros W F. unfold verdict_of. destruct (skipped p); [reflexivity|].
+  unfold decide_u. rewrite (find_unclaimed _ W), F. destruct (raised p); reflexivity.
+Qed.
+
+(* ---------- the delivered events ---------- *)
+Lemma events_of_calls f t : events_of f t = events_of f (calls t).
+Proof.
+  induction t as [|e r IH]; simpl; [reflexivity|]. destruct e; simpl; rewrite ?IH; reflexivity.
+Qed.
+
+Lemma model_obs i :
+  model i = {| o_events := if has_stop (i_flavour i)
+                           then [Start; Out (deliver (i_flavour i) (fst (verdict_of (i_prog i)))); Stop]
+                           else [Start; Out (deliver (i_flavour i) (fst (verdict_of (i_prog i))))];
+               o_raised := match snd (verdict_of (i_prog i)) with Some e => kind_of e | None => RNone end |}.
+Proof.
+  unfold model. destruct (run_verdict (i_prog i) []) as (s & d & R & C & _). rewrite R.
+  rewrite events_of_calls, C. unfold events_of. cbn [flat_map app]. destruct (has_stop (i_flavour i)); reflexivity.
+Qed.
+
+Theorem model_meets_spec i : wf i = true -> spec_okb i (model i) = true.
+Proof.
+  intros W. unfold wf in W. apply andb_true_iff in W as [_ Wh]. fold (handlers_within_Exception (i_prog i)) in Wh.
+  rewrite model_obs. unfold spec_okb. cbn [o_events o_raised].
+  assert (B : bracket (i_flavour i)
+                (if has_stop (i_flavour i)
+                 then [Start; Out (deliver (i_flavour i) (fst (verdict_of (i_prog i)))); Stop]
+                 else [Start; Out (deliver (i_flavour i) (fst (verdict_of (i_prog i))))])
+              = Some (deliver (i_flavour i) (fst (verdict_of (i_prog i))))).
+  { unfold bracket. destruct (has_stop (i_flavour i)); reflexivity. }
+  rewrite B.
+  destruct (find (fun e => negb (derives_from_Exception e)) (raised (i_prog i))) as [e|] eqn:F.
+  - rewrite (verdict_base _ _ Wh F). cbn [fst snd].
+    rewrite (proj2 (outcome_eqb_spec _ _) eq_refl), (proj2 (rk_eqb_spec _ _) eq_refl). reflexivity.
+  - rewrite (verdict_no_base _ Wh F). reflexivity.
+Qed.
+
+(* C01_bracket, on the model's own trace: whatever the program, the calls on the result are
+   startTest, exactly one outcome, stopTest (handler calls of addOnException aside); the fuel
+   supplied to the cleanup loop suffices; every body that should run did; no cleanup is left *)
+Theorem run_bracket p a0 :
+  exists s o d prop, run p a0 = (s, prop, false)
+                /\ calls (tr s) = [TStart; TOut o d; TStop]
+                /\ map shape (log s) = expected_log p /\ stack s = [].
+Proof.
+  destruct (run_verdict p a0) as (s & d & R & C & L & K & _).
+  exists s, (fst (verdict_of p)), d, (snd (verdict_of p)). repeat split; assumption.
+Qed.
+
+(* ... and on what each result flavour receives *)
+Theorem bracket_delivered i :
+  exists o, o_events (model i) = if has_stop (i_flavour i) then [Start; Out o; Stop] else [Start; Out o].
+Proof. rewrite model_obs. eexists. reflexivity. Qed.
+
 (* C01_base_reported: an exception outside Exception raised anywhere is reported as the error,
    every stage and cleanup still runs (the log is the full expected one), and the first such
    exception comes out of run() *)
 Theorem base_reported p a0 e :
-  forallb (fun co => subclass (fst co) CException) (p_handlers p) = true ->
+  handlers_within_Exception p = true ->
   find (fun e => negb (derives_from_Exception e)) (raised p) = Some e ->
   exists s d, run p a0 = (s, Some e, false)
               /\ calls (tr s) = [TStart; TOut OErr d; TStop]
               /\ map shape (log s) = expected_log p
               /\ stack s = [].
 Proof.
-  intros Wh F. destruct (run_bracket p a0) as (s & o & d & R & V & C & L & K).
-  assert (Eq : forall e, negb (derives_from_Exception e) = negb (claims (handlers p) e)).
-  { intros x. unfold derives_from_Exception. now rewrite (claims_iff _ x Wh). }
-  rewrite (find_ext' _ _ (raised p) Eq) in F. rewrite <- collected_run_raised in F.
-  unfold verdict, collected_run in *. destruct (skipped p); [discriminate|].
-  rewrite (decide_unclaimed _ _ _ F) in *. cbn [fst snd] in *. rewrite table_last_resort in V. injection V as <-.
-  exists s, d. repeat split; assumption.
+  intros Wh F. destruct (run_verdict p a0) as (s & d & R & C & L & K & _).
+  rewrite (verdict_base _ _ Wh F) in *. exists s, d. repeat split; assumption.
 Qed.
 
-(* C01_stop_before_raise: whatever propagates, stopTest has been delivered and is the last call *)
+(* C01_stop_before_raise: whatever propagates, stopTest has been delivered and is the last call,
+   after exactly one outcome *)
 Theorem stop_delivered p a0 :
   let '(s, propagated, oof) := run p a0 in
   oof = false /\ last (calls (tr s)) TStart = TStop
   /\ length (filter (fun e => match e with TOut _ _ => true | _ => false end) (tr s)) = 1.
 Proof.
-  destruct (run_bracket p a0) as (s & o & d & R & V & C & L & K). rewrite R.
+  destruct (run_verdict p a0) as (s & d & R & C & _). rewrite R.
   split; [reflexivity|]. split; [rewrite C; reflexivity|].
   assert (H : forall t, filter (fun e => match e with TOut _ _ => true | _ => false end) t
                         = filter (fun e => match e with TOut _ _ => true | _ => false end) (calls t)).
@@ -119,18 +164,51 @@ Qed.
 
 (* without such an exception run() returns *)
 Theorem returns_otherwise p a0 :
-  forallb (fun co => subclass (fst co) CException) (p_handlers p) = true ->
+  handlers_within_Exception p = true ->
   (forall e, In e (raised p) -> derives_from_Exception e = true) ->
   exists s, run p a0 = (s, None, false).
 Proof.
-  intros Wh All. destruct (run_bracket p a0) as (s & o & d & R & V & C & L & K).
-  exists s. rewrite R. f_equal. f_equal.
-  unfold verdict. destruct (skipped p) eqn:Sk; [reflexivity|].
-  assert (F : find (fun e => negb (claims (handlers p) e)) (collected p false) = None).
-  { destruct (find _ _) as [e|] eqn:F; [|reflexivity]. apply find_some in F. destruct F as [Fin Fb].
-    rewrite (claims_iff _ e Wh) in Fb. pose proof (collected_run_raised p) as CR. unfold collected_run in CR.
-    rewrite Sk in CR. rewrite CR in Fin. unfold derives_from_Exception in All. rewrite (All e Fin) in Fb. discriminate. }
-  destruct (collected p false) as [|x r] eqn:EX; [reflexivity|].
-  destruct (decide_claimed (handlers p) (x :: r)) as (h & _ & D); [discriminate | exact F|].
-  rewrite D. reflexivity.
+  intros Wh All. destruct (run_verdict p a0) as (s & d & R & _).
+  exists s. rewrite R. f_equal. f_equal. apply (verdict_no_base _ Wh).
+  destruct (find _ (raised p)) as [e|] eqn:F; [|reflexivity]. apply find_some in F. destruct F as [Fin Fb].
+  rewrite (All e Fin) in Fb. discriminate.
 Qed.
+
+(* the exception that propagates is the FIRST one outside Exception: everything raised before it
+   derives from Exception, whatever is raised after it *)
+Lemma find_first {A} (f : A -> bool) l x :
+  find f l = Some x -> exists a b, l = a ++ x :: b /\ f x = true /\ forallb (fun y => negb (f y)) a = true.
+Proof.
+  induction l as [|y r IH]; simpl; [discriminate|]. destruct (f y) eqn:E.
+  - intros H; injection H as ->. exists [], r. repeat split; assumption.
+  - intros H. destruct (IH H) as (a & b & -> & Hx & Ha). exists (y :: a), b. simpl. rewrite E. repeat split; assumption.
+Qed.
+Theorem first_base_propagates p a0 s e :
+  handlers_within_Exception p = true ->
+  run p a0 = (s, Some e, false) ->
+  exists before after, raised p = before ++ e :: after
+                       /\ derives_from_Exception e = false
+                       /\ forallb derives_from_Exception before = true.
+Proof.
+  intros Wh R. destruct (run_verdict p a0) as (s' & d & R' & _). rewrite R in R'.
+  assert (V : snd (verdict_of p) = Some e) by congruence.
+  destruct (find (fun e => negb (derives_from_Exception e)) (raised p)) as [x|] eqn:F.
+  - rewrite (verdict_base _ _ Wh F) in V. injection V as ->.
+    destruct (find_first _ _ _ F) as (a & b & E & Hx & Ha). exists a, b. split; [exact E|].
+    split; [now apply negb_true_iff in Hx|].
+    rewrite forallb_forall in *. intros y Hy. specialize (Ha y Hy). now rewrite negb_involutive in Ha.
+  - rewrite (verdict_no_base _ Wh F) in V. discriminate.
+Qed.
+
+Theorem model_meets_Spec i : wf i = true -> Spec i (model i).
+Proof. intros W. exact (spec_okb_sound i (model i) (model_meets_spec i W)). Qed.
+
+(* the table facts used above, together *)
+Lemma table_facts :
+  last_resort = Some OErr
+  /\ forallb (fun h => match h_out h with Some _ => true | None => false end) generated_handlers = true
+  /\ forallb (fun h => subclass (h_cls h) CException) generated_handlers = true
+  /\ match rev generated_handlers with h :: _ => cls_eqb (h_cls h) CException | [] => false end = true
+  /\ (run_passes_table = true /\ length generated_handlers = length exception_handlers).
+Proof. exact (conj table_last_resort (conj table_outcomes (conj table_within_Exception
+             (conj table_catch_all_last table_complete)))). Qed.
